@@ -1161,6 +1161,68 @@ fn runner_hook(ev: bevy_cobweb::verif::RunnerEv)
 }
 
 //-------------------------------------------------------------------------------------------------------------------
+// Bystander world: a second App in the same process. Entity indices overlap with the world under test on purpose.
+
+struct BX(u32);
+
+#[derive(Resource, Default)]
+struct ByLog { reactor_runs: u32, last: u32 }
+
+struct Bystander
+{
+    app: App,
+    ents: Vec<Entity>,
+    /// signal per entity (None = dropped)
+    sigs: Vec<Option<AutoDespawnSignal>>,
+    /// entities whose signal was dropped but whose world has not collected since
+    released: Vec<usize>,
+    sent: u32,
+    tick: u32,
+}
+
+impl Bystander
+{
+    fn new(n: usize) -> Self
+    {
+        let mut app = App::new();
+        app.add_plugins(ReactPlugin);
+        app.init_resource::<ByLog>();
+        let world = app.world_mut();
+        let ents: Vec<Entity> = (0..n).map(|_| world.spawn_empty().id()).collect();
+        world.react(|rc| { rc.on_persistent(broadcast::<BX>(), |ev: BroadcastEvent<BX>, mut l: ResMut<ByLog>| { l.reactor_runs += 1; l.last = ev.try_read().map(|x| x.0).unwrap_or(u32::MAX); }); });
+        let sigs = ents.iter().map(|e| Some(world.resource::<AutoDespawner>().prepare(*e))).collect();
+        Bystander { app, ents, sigs, released: Vec::new(), sent: 0, tick: 0 }
+    }
+
+    /// One action per driver step of the world under test, then the invariants.
+    fn step(&mut self)
+    {
+        self.tick += 1;
+        match self.tick % 4
+        {
+            0 => { if let Some(i) = self.sigs.iter().position(|s| s.is_some()) { self.sigs[i] = None; self.released.push(i); } }
+            1 => { garbage_collect_entities(self.app.world_mut()); self.released.clear(); }
+            2 => { self.sent += 1; let id = self.sent; self.app.world_mut().broadcast(BX(id)); }
+            _ => { self.app.update(); self.released.clear(); }
+        }
+        let world = self.app.world();
+        for (i, e) in self.ents.iter().enumerate()
+        {
+            let alive = world.get_entity(*e).is_ok();
+            let held = self.sigs[i].is_some();
+            let pending = self.released.contains(&i);
+            if held && !alive { log(Ev::Bystander(format!("C10 premature-autodespawn: entity {i} of an independent world was despawned while its signal is held"))); }
+            if !held && !pending && alive { log(Ev::Bystander(format!("C10 autodespawn-leak: entity {i} of an independent world survived its world's garbage collection after its signal was dropped"))); }
+        }
+        let l = world.resource::<ByLog>();
+        if l.reactor_runs != self.sent || (self.sent > 0 && l.last != self.sent)
+        {
+            log(Ev::Bystander(format!("C01 unexpected-reaction: the reactor of an independent world ran {} times for {} broadcasts sent there (last payload seen {})", l.reactor_runs, self.sent, l.last)));
+        }
+    }
+}
+
+//-------------------------------------------------------------------------------------------------------------------
 // Running a program
 
 pub const HOOKS: bool = cfg!(ukoehb_bevy_cobweb_verif);
@@ -1306,6 +1368,7 @@ fn run_inner(prog: &Arc<Program>)
     #[cfg(ukoehb_bevy_cobweb_verif)]
     bevy_cobweb::verif::set_runner_hook(Some(runner_hook));
 
+    let mut bystander = if prog.bystander { Some(Bystander::new(prog.slots.len() + 3)) } else { None };
     for (i, step) in prog.steps.iter().enumerate()
     {
         log(Ev::StepBegin(i));
@@ -1323,6 +1386,7 @@ fn run_inner(prog: &Arc<Program>)
             Step::AppSetup => { app.setup_auto_despawn(); }
         }
         log(Ev::StepEnd(i));
+        if let Some(b) = bystander.as_mut() { b.step(); }
         let post = post_obs(app.world_mut());
         log(Ev::Post(Box::new(post)));
     }
